@@ -52,28 +52,34 @@ def deserialize_hml(ser: Slice, m: int) -> typing.Tuple[int, bitarray]:
     return n, s
 
 
-def deserialize_hashmap_node(cs: Slice, m: int, ret_dict: dict, prefix: bitarray) -> None:
+def deserialize_hashmap_node(cs: Slice, m: int, ret_dict: dict, prefix: bitarray, barren: set = None) -> None:
     if cs.type_ != CellTypes.ordinary:
         return None
     if m == 0:  # leaf
         if prefix:
             ret_dict[prefix.to01()] = cs
     else:  # fork
+        if barren is None:
+            barren = set()
         l_prefix, r_prefix = prefix.copy(), prefix.copy()
         l_prefix.append(False)
         r_prefix.append(True)
-        parse(
-            cs.load_ref().begin_parse(),
-            m - 1,
-            ret_dict,
-            l_prefix,
-            )
-        parse(
-            cs.load_ref().begin_parse(),
-            m - 1,
-            ret_dict,
-            r_prefix,
-            )
+        for child_prefix in (l_prefix, r_prefix):
+            child = cs.load_ref()
+            # a shared subtree that yielded no leaf (it ends in pruned branches) yields none under any other prefix:
+            # do not walk it again once per path
+            if (child.hash, m - 1) in barren:
+                continue
+            found = len(ret_dict)
+            parse(
+                child.begin_parse(),
+                m - 1,
+                ret_dict,
+                child_prefix,
+                barren,
+                )
+            if len(ret_dict) == found:
+                barren.add((child.hash, m - 1))
 
 
 def deserialize_hashmap_aug_node(cs: Slice, m: int, ret_dict: dict, extras: list, prefix: bitarray, x_deserializer: typing.Callable, y_deserializer: typing.Callable) -> None:
@@ -105,11 +111,11 @@ def deserialize_hashmap_aug_node(cs: Slice, m: int, ret_dict: dict, extras: list
         extras.append(y_deserializer(cs))
 
 
-def parse(slice: Slice, key_length: int, ret_dict: dict, prefix: bitarray) -> None:
+def parse(slice: Slice, key_length: int, ret_dict: dict, prefix: bitarray, barren: set = None) -> None:
     l, suffix = deserialize_hml(slice, key_length)
     prefix.extend(suffix)
     m = key_length - l
-    deserialize_hashmap_node(slice, m, ret_dict, prefix.copy())
+    deserialize_hashmap_node(slice, m, ret_dict, prefix.copy(), barren)
 
 
 def parse_aug(slice: Slice, key_length: int, ret_dict: dict, extras: list, prefix: bitarray, x_deserializer: typing.Callable, y_deserializer: typing.Callable) -> None:
